@@ -28,6 +28,7 @@ ApplyOp(st, op) ==
 OpDefined(st, op) ==
   /\ op.a = "set_param" => SetParamDefined(st, op.t, op.name, op.d)
   /\ op.a = "set_state" => SetStateDefined(op.state, op.values)
+  /\ op.a = "create_trial" => CreateTrialDefined(st, op.s, op.tm)
 
 RECURSIVE FoldFrom(_, _, _, _)
 FoldFrom(st, log, i, j) == IF i > j THEN st ELSE FoldFrom(ApplyOp(st, log[i].op).st, log, i + 1, j)
